@@ -28,12 +28,16 @@ class Untranslatable(Exception):
 
 BITS = {"u8": 8, "u16": 16, "u32": 32, "u64": 64, "usize": 64, "u128": 128}
 
+STRING = re.compile(r'\s*"((?:\\.|[^"\\])*)"')
 TOKEN = re.compile(r"\s*(?:(0x[0-9a-fA-F_]+(?:_?(?:u8|u16|u32|u64|usize|u128))?|\d[\d_]*(?:_?(?:u8|u16|u32|u64|usize|u128))?)|([A-Za-z_]\w*)|(<<=|>>=|\.\.=|==|!=|<=|>=|=>|&&|\|\||<<|>>|\+=|-=|\*=|/=|%=|\^=|&=|\|=|::|->|\.\.|[-+*/%^&|!<>=(){}\[\];:,.#?]))")
 
 def tokenize(src):
     out, i = [], 0
-    src = re.sub(r"//[^\n]*", "", src)
+    src = strip_comments(src)
     while i < len(src):
+        ms = STRING.match(src, i)
+        if ms:
+            out.append(("str", ms.group(1))); i = ms.end(); continue
         m = TOKEN.match(src, i)
         if not m:
             if src[i:].strip() == "": break
@@ -84,7 +88,25 @@ class Parser:
         return " ".join(out)
 
     def stmt(self):
+        while self.peek() == ("op", "#") and self.peek(1) == ("op", "["):      # attributes on statements
+            self.next(); depth = 0
+            while True:
+                tk = self.next()[1]
+                if tk == "[": depth += 1
+                if tk == "]":
+                    depth -= 1
+                    if depth == 0: break
         k, v = self.peek()
+        if v == "const" and self.peek(1)[0] == "id" and self.peek(2) == ("op", ":"):      # a local constant is a let
+            self.next(); name = self.next()[1]; self.expect(":"); ty = self.type_()
+            self.expect("="); e = self.expr(); self.expect(";")
+            return ("let", name, ty, e)
+        if v == "let" and self.peek(1) == ("op", "("):          # let (a, _) = e;
+            self.next(); self.next(); names = []
+            while not self.accept(")"):
+                self.accept("mut"); names.append(self.next()[1]); self.accept(",")
+            self.expect("="); e = self.expr(); self.expect(";")
+            return ("let_tuple", names, e)
         if v == "let":
             self.next(); self.accept("mut")
             name = self.next()[1]
@@ -92,6 +114,9 @@ class Parser:
             if self.accept(":"): ty = self.type_()
             self.expect("=")
             e = self.expr()
+            if self.peek()[1] in ("..", "..="):
+                incl = self.next()[1] == "..="
+                e = ("range", e, self.expr(), incl)
             self.expect(";")
             return ("let", name, ty, e)
         if v == "if":
@@ -138,6 +163,17 @@ class Parser:
 
     def if_(self):
         self.expect("if")
+        if self.peek()[1] == "let":                              # if let Some(x) = e { A } else { B }
+            self.next()
+            if self.next()[1] != "Some": raise Untranslatable("if let of another pattern")
+            self.expect("("); name = self.next()[1]; self.expect(")"); self.expect("=")
+            self.nostruct += 1
+            scrut = self.expr(no_struct=True)
+            self.nostruct -= 1
+            th = self.block()
+            self.expect("else")
+            el = self.block()
+            return ("iflet", name, scrut, th, el)
         self.nostruct += 1
         c = self.expr(no_struct=True)
         self.nostruct -= 1
@@ -184,6 +220,8 @@ class Parser:
         e = self.primary()
         while True:
             if self.accept("."):
+                if self.peek()[0] == "num":
+                    idx = int(self.next()[1]); e = ("tfield", e, idx); continue
                 name = self.next()[1]
                 if self.accept("("):
                     args = []
@@ -210,6 +248,8 @@ class Parser:
 
     def primary(self):
         k, v = self.next()
+        if k == "str":
+            return ("strlit", v)
         if k == "num":
             m = re.match(r"(0x[0-9a-fA-F_]+|\d[\d_]*?)_?(u8|u16|u32|u64|usize|u128)?$", v)
             if not m: raise Untranslatable("number %r" % v)
@@ -243,8 +283,20 @@ class Parser:
                 if self.peek() != ("op", "["): raise Untranslatable("vec! without brackets")
                 return self.primary()      # the bracketed literal / repeat that follows
             path = [v]
+            generic = None
             while self.peek() == ("op", "::"):
-                self.next(); path.append(self.next()[1])
+                self.next()
+                if self.peek() == ("op", "<"):
+                    self.next(); gen = []
+                    while self.peek()[1] != ">": gen.append(self.next()[1])
+                    self.next(); generic = " ".join(gen)
+                    continue
+                path.append(self.next()[1])
+            if generic is not None and self.peek() == ("op", "("):
+                self.next(); args = []
+                while not self.accept(")"):
+                    args.append(self.expr()); self.accept(",")
+                return ("fncall", "::".join(path) + "::<" + generic + ">", args)
             if self.peek() == ("op", "(") and not (len(path) == 1 and path[0] == "self"):
                 self.next(); args = []
                 while not self.accept(")"):
@@ -261,6 +313,17 @@ class Parser:
                 self.nostruct = saved
                 return ("struct", "::".join(path), fields)
             return ("id", "::".join(path))
+        if v == "|":                                   # closure |pat| body  (only as the argument of for_each)
+            if self.accept("("):
+                pat = []
+                while not self.accept(")"):
+                    pat.append(self.next()[1]); self.accept(",")
+            else:
+                pat = [self.next()[1]]
+            self.expect("|")
+            if self.peek() == ("op", "{"): body = self.block()
+            else: body = [("tail", self.expr())]
+            return ("closure", pat, body)
         if v == "(":
             if self.accept(")"): return ("unit",)
             saved = self.nostruct; self.nostruct = 0
@@ -308,9 +371,17 @@ class Gen:
         self.identity_calls = set()     # wrappers that do not change the bytes (X::from_le_bytes, .as_le_bytes(), ...)
         self.big = None                 # big-integer mode: dict(be=, into=, gen_params=set(), prime_params=set()) or None
         self.loop_depth = 0             # >0 while translating a `for` body: `return e` leaves the loop with (inl e)
+        self.struct_params = {}         # parameter name -> [field names]: a `&Struct` parameter passed as its fields (env keys "p.f")
+        self.param_method_calls = {}    # method on a struct parameter -> (translated method taking all its fields then the args, result type)
+        self.struct_method_calls = {}   # read-only method on a local struct value -> (translated fn, number of fields, indices passed, result type)
+        self.try_into_len = None        # the N of the `[u8; N]` an `.as_slice().try_into().unwrap()` converts into (per target)
+        self.mut_method_calls = {}      # `x.m(args);` on a local struct value: name -> (translated method taking the fields then the args, number of fields)
+        self.method_calls = {}          # method name (no arguments) on a value -> (translated function returning option, result type)
         self.match_patterns = {}        # rust path of a variant -> (gallina constructor, [types of its fields])
         self.fn_final = None            # function-level result builder: `?` and `return` leave the function through it
         self.self_calls = {}            # method name -> (translated function over the self fields, ["self.f", ..]): returns (fields, value)
+        self.self_tuple = None          # gallina text standing for `self` passed by value to another function
+        self.sum_calls = {}             # rust path -> (gallina function returning option (A + E), type label of A): Result-valued callees
         self.opt_calls = {}             # rust path -> (gallina function returning option R, type label of R): other translated functions
         self.ctor_calls = {}            # rust path of a tuple variant / constructor -> gallina constructor (applied to its arguments)
         self.str_vars = set()           # gallina names of values of type &str (lists of scalar values)
@@ -337,6 +408,32 @@ class Gen:
         if kind == "deref": return self.expr(e[1], k, want)
         if kind == "num":
             return k(str(e[1]), e[2] or want)
+        if kind == "tfield" and e[2] == 0 and e[1][0] == "call" and e[1][2] == "compute" and not e[1][3]:
+            def kmd(a, ta):
+                if ta != "md5ctx": raise Untranslatable(".compute() of %s" % (ta,))
+                return k("(md5 %s)" % a, ("arr", "u8"))
+            return self.expr(e[1][1], kmd)
+        if kind == "tfield":
+            def ktf(a, ta):
+                if not (isinstance(ta, tuple) and ta[0] == "tup" and len(ta[1]) == 2): raise Untranslatable("field of a non-pair")
+                return k("(%s %s)" % ("fst" if e[2] == 0 else "snd", a), ta[1][e[2]])
+            return self.expr(e[1], ktf)
+        if kind == "call" and e[2] in ("finalize", "finalize_fixed") and not e[3]:
+            # Sha1::new().chain_update(a).chain_update(b).finalize()  ->  sha1 (a ++ b)
+            parts, x = [], e[1]
+            while x[0] == "call" and x[2] == "chain_update" and len(x[3]) == 1:
+                parts.insert(0, x[3][0]); x = x[1]
+            if x == ("fncall", "Sha1::new", []) and parts:
+                def gsh(i, acc):
+                    if i == len(parts): return k("(sha1 (%s))" % " ++ ".join(acc), ("arr", "u8"))
+                    return self.expr(parts[i], lambda t, tt: gsh(i + 1, acc + [t]))
+                return gsh(0, [])
+        if kind == "call" and e[2] in self.method_calls and not e[3] and e[1][0] == "id" and e[1][1] in self.env:
+            g_, rty = self.method_calls[e[2]]
+            def kmc(a, ta):
+                v_ = self.fresh("m")
+                return "match %s %s with None => None | Some %s =>\n  %s end" % (g_, a, v_, k(v_, rty))
+            return self.expr(e[1], kmc)
         if kind == "block":
             saved = dict(self.env)
             def fin_block(tail):
@@ -368,10 +465,14 @@ class Gen:
             return k("tt", "unit")
         if kind == "id" and e[1] in self.enums:
             return k(self.enums[e[1]], "enum")
+        if kind == "id" and e[1] in ("true", "false") and e[1] not in self.env:
+            return k(e[1], "bool")
         if kind == "id" and e[1] == "None":
             return k("None", ("opt", None))
         if kind == "fncall" and e[1] == "Some" and len(e[2]) == 1:
             return self.expr(e[2][0], lambda t, tt: k("(Some %s)" % t, ("opt", tt)))
+        if kind == "id" and e[1] == "self" and self.self_tuple is not None:
+            return k(self.self_tuple, "selfvalue")
         if kind == "id":
             name = e[1]
             if name in self.env:
@@ -426,6 +527,95 @@ class Gen:
                 if i == len(args): return k("(res_view (%s %s))" % (g_, " ".join(acc)), "resopt")
                 return self.expr(args[i], lambda t, tt: gor(i + 1, acc + [t]))
             return gor(0, [])
+        if kind == "fncall" and e[1] in self.sum_calls:
+            g_, rty = self.sum_calls[e[1]]
+            args = e[2]
+            def gos(i, acc):
+                if i == len(args):
+                    v_ = self.fresh("r")
+                    return "match %s %s with None => None | Some %s =>\n  %s end" % (g_, " ".join(acc), v_, k(v_, ("sum", rty)))
+                return self.expr(args[i], lambda t, tt: gos(i + 1, acc + [t]))
+            return gos(0, [])
+        if kind == "call" and e[1][0] == "id" and e[1][1] in self.struct_params:
+            pn = e[1][1]
+            if e[2] in self.struct_params[pn] and not e[3]:          # getter
+                g_, ty_ = self.env["%s.%s" % (pn, e[2])]; return k(g_, ty_)
+            if e[2] in self.param_method_calls:
+                fn_, rty = self.param_method_calls[e[2]]
+                fs = " ".join(self.env["%s.%s" % (pn, f_)][0] for f_ in self.struct_params[pn])
+                def gpm(i, acc):
+                    if i == len(e[3]):
+                        v_ = self.fresh("p")
+                        return "match %s %s%s with None => None | Some %s =>\n  %s end" % (fn_, fs, "".join(" " + a for a in acc), v_, k(v_, rty))
+                    return self.expr(e[3][i], lambda t_, tt: gpm(i + 1, acc + [t_]))
+                return gpm(0, [])
+        if (kind == "call" and e[2] in self.struct_method_calls and e[1][0] == "id" and e[1][1] in self.env
+                and isinstance(self.env[e[1][1]][1], tuple) and self.env[e[1][1]][1][0] == "struct"):
+            fn_, nf, idxs, rty = self.struct_method_calls[e[2]]
+            g_, _ = self.env[e[1][1]]
+            fs = [self.fresh("f") for _ in range(nf)]
+            def gsm(i, acc):
+                if i == len(e[3]):
+                    v_ = self.fresh("m")
+                    return ("match (let '(%s) := %s in %s %s%s) with None => None | Some %s =>\n  %s end"
+                            % (", ".join(fs), g_, fn_, " ".join(fs[j] for j in idxs), "".join(" " + a for a in acc), v_, k(v_, rty)))
+                return self.expr(e[3][i], lambda t_, tt: gsm(i + 1, acc + [t_]))
+            return gsm(0, [])
+        # ARR.iter().enumerate().find(|(_, a)| **a == RHS): the first (index, element) whose element is RHS
+        if (kind == "call" and e[2] == "find" and len(e[3]) == 1 and e[3][0][0] == "closure" and len(e[3][0][1]) == 2
+                and e[1][0] == "call" and e[1][2] == "enumerate" and e[1][1][0] == "call" and e[1][1][2] == "iter"):
+            cl = e[3][0]; a_ = cl[1][1]
+            if not (cl[1][0] == "_" and len(cl[2]) == 1 and cl[2][0][0] == "tail" and cl[2][0][1][0] == "bin" and cl[2][0][1][1] == "=="
+                    and cl[2][0][1][2] == ("deref", ("deref", ("id", a_)))):
+                raise Untranslatable("find with another predicate")
+            rhs = cl[2][0][1][3]
+            def kfa(av, ta):
+                if not (isinstance(ta, tuple) and ta[0] == "arr"): raise Untranslatable("find over a non-array")
+                return self.expr(rhs, lambda r, tr_: k("(position_from %s %s 0)" % (r, av), ("opt", ("tup", ("usize", ta[1])))), ta[1])
+            return self.expr(e[1][1][1], kfa)
+        if kind == "call" and e[2] == "unwrap" and not e[3] and e[1][0] == "call" and e[1][2] == "find":
+            def kuw(a, ta):
+                v_ = self.fresh("f")
+                return "match %s with None => None | Some %s =>\n  %s end" % (a, v_, k(v_, ta[1]))
+            return self.expr(e[1], kuw)
+        # ---- HMAC-SHA1 objects (hmac crate): a value (key, message so far) ----
+        if kind == "fncall" and e[1] in ("Hmac::new_from_slice", "Hmac::new_from_slice::<Sha1>", "Hmac::<Sha1>::new_from_slice") and len(e[2]) == 1:
+            def khn(a, ta):
+                if not (isinstance(ta, tuple) and ta[0] == "arr"): raise Untranslatable("HMAC key")
+                return k("(%s, @nil N)" % a, "hmac_res")        # new_from_slice accepts every key length
+            return self.expr(e[2][0], khn)
+        if kind == "fncall" and e[1] in ("Context::new", "md5::Context::new") and not e[2]:
+            return k("(@nil N)", "md5ctx")                      # md5::Context: the message consumed so far
+        if kind == "call" and e[2] in ("unwrap", "finalize", "finalize_fixed", "into_bytes", "as_slice", "as_mut_slice", "try_into") and not e[3] and not (e[2] in ("finalize", "finalize_fixed") and e[1][0] == "call" and e[1][2] == "chain_update"):
+            def khm(a, ta):
+                if e[2] == "finalize_fixed" and ta == "hmac": return k("(hmac_sha1 (fst %s) (snd %s))" % (a, a), ("arr", "u8"))
+                if e[2] == "as_mut_slice" and isinstance(ta, tuple) and ta[0] == "arr": return k(a, ta)
+                if e[2] == "unwrap" and isinstance(ta, tuple) and ta[0] == "opt" and ta[1] is not None:
+                    v_ = self.fresh("u")
+                    return "match %s with None => None | Some %s =>\n  %s end" % (a, v_, k(v_, ta[1]))
+                if e[2] == "unwrap" and ta == "hmac_res": return k(a, "hmac")
+                if e[2] == "finalize" and ta == "hmac": return k("(hmac_sha1 (fst %s) (snd %s))" % (a, a), "hmac_out")
+                if e[2] == "into_bytes" and ta == "hmac_out": return k(a, ("arr", "u8"))
+                if e[2] == "as_slice" and isinstance(ta, tuple) and ta[0] == "arr": return k(a, ta)
+                if e[2] == "try_into" and isinstance(ta, tuple) and ta[0] == "arr": return k(a, ("tryinto", ta))
+                if e[2] == "unwrap" and isinstance(ta, tuple) and ta[0] == "tryinto":
+                    if self.try_into_len is None: raise Untranslatable("length of the try_into() target")
+                    v_ = self.fresh("a")
+                    return "if (N.of_nat (length %s) =? %s) then let %s := %s in\n  %s else None" % (a, self.try_into_len, v_, a, k(v_, ta[1]))
+                raise Untranslatable(".%s() of %s" % (e[2], ta))
+            return self.expr(e[1], khm)
+        if kind == "call" and e[2] == "expect" and len(e[3]) == 1 and e[3][0][0] == "strlit":
+            def kex(a, ta):
+                if not (isinstance(ta, tuple) and ta[0] == "sum"): raise Untranslatable(".expect on a non-Result")
+                v_ = self.fresh("x")
+                return "match %s with inl %s =>\n  %s | inr _ => None end" % (a, v_, k(v_, ta[1]))
+            return self.expr(e[1], kex)
+        if kind == "try":
+            def ktry(a, ta):
+                if not (isinstance(ta, tuple) and ta[0] == "sum"): raise Untranslatable("? on a non-Result")
+                v_ = self.fresh("x"); e_ = self.fresh("e")
+                return "match %s with inl %s =>\n  %s | inr %s => %s end" % (a, v_, k(v_, ta[1]), e_, (self.fn_final)(("(inr %s)" % e_, "result")))
+            return self.expr(e[1], ktry)
         if kind == "fncall" and e[1] in self.opt_calls:
             g_, rty = self.opt_calls[e[1]]
             args = e[2]
@@ -443,6 +633,13 @@ class Gen:
             return gok(0, [])
         if kind == "fncall" and e[1] in self.identity_calls and len(e[2]) == 1:
             return self.expr(e[2][0], k, want)
+        mrd = re.fullmatch(r"(?:rand::)?random::<(u8|u16|u32|u64)>", e[1]) if kind == "fncall" else None
+        is_next = kind == "call" and e[2] in ("next_u32", "next_u64") and not e[3] and e[1] == ("fncall", "thread_rng", [])
+        if (mrd and not e[2]) or is_next:
+            if self.tape is None: raise Untranslatable("random draw without a tape")
+            ty_ = mrd.group(1) if mrd else ("u32" if e[2] == "next_u32" else "u64")
+            b_ = self.fresh("d")
+            return "let '(%s, %s) := draw %d %s in\n  %s" % (b_, self.tape, BITS[ty_] // 8, self.tape, k("(le_to_N %s)" % b_, ty_))
         if kind == "fncall" and e[1].endswith("::randomized") and not e[2]:
             ty = e[1].split("::")[-2]
             if ty not in self.draws or self.tape is None: raise Untranslatable("random draw of %s" % ty)
@@ -630,6 +827,7 @@ class Gen:
             if name == "into" and not args:
                 # only used for widening u8 -> usize in this crate
                 def ki(a, ta):
+                    if isinstance(ta, tuple) and ta[0] == "arr": return k(a, ta)      # GenericArray -> [u8; N]: the same bytes
                     if ta not in BITS: raise Untranslatable(".into() of %s" % (ta,))
                     tgt = want if want in BITS else "usize"
                     if BITS[tgt] < BITS[ta]: raise Untranslatable("narrowing .into()")
@@ -693,6 +891,60 @@ class Gen:
             raise Untranslatable("call of %s" % e[1])
         raise Untranslatable("expression kind %s" % kind)
 
+    def iter_list(self, x, kk):
+        """kk(list term, [element types]) for an iterator expression"""
+        iter_list = self.iter_list
+        """(moved to the method Gen.iter_list)"""
+        while x[0] == "paren": x = x[1]
+        if x[0] == "range":
+            def klo(lo, tl):
+                def khi(hi, th):
+                    t_ = self.unify(tl, th, "range") or "usize"
+                    return kk("(range_list %s %s)" % (lo, ("(%s + 1)" % hi) if x[3] else hi), [t_])
+                return self.expr(x[2], khi, tl)
+            return self.expr(x[1], klo)
+        if x[0] == "call" and not x[3]:
+            if x[2] == "enumerate": return iter_list(x[1], lambda l, ts: kk("(enumerate_list %s)" % l, ["usize"] + ts) if len(ts) == 1 else (_ for _ in ()).throw(Untranslatable("enumerate of pairs")))
+            if x[2] == "rev": return iter_list(x[1], lambda l, ts: kk("(rev %s)" % l, ts))
+            if x[2] == "chars":
+                def ks(sv, ts):
+                    if ts != "str": raise Untranslatable(".chars() of a non-str")
+                    return kk(sv, ["char"])
+                return self.expr(x[1], ks)
+            pass
+        if x[0] == "id" and x[1] in self.env and isinstance(self.env[x[1]][1], tuple) and self.env[x[1]][1][0] == "iter":
+            return kk(self.env[x[1]][0], list(self.env[x[1]][1][1]))
+        if x[0] == "call" and len(x[3]) == 1 and x[2] in ("step_by", "skip"):
+            def kn1(n_, tn):
+                if x[2] == "skip": return iter_list(x[1], lambda l, ts: kk("(skipn (N.to_nat %s) %s)" % (n_, l), ts))
+                return iter_list(x[1], lambda l, ts: "if %s =? 0 then None else\n  %s" % (n_, kk("(step_by_list (N.to_nat %s) %s)" % (n_, l), ts)))
+            return self.expr(x[3][0], kn1, "usize")
+        if x[0] == "call" and x[2] == "zip" and len(x[3]) == 1 and self.is_cycle(x[3][0]):
+            base = self.is_cycle(x[3][0])
+            return iter_list(x[1], lambda l1, t1: iter_list(base, lambda l2, t2: kk("(combine %s (cycle_take %s (length %s)))" % (l1, l2, l1), [("tup", (t1[0], t2[0]))]) if len(t1) == 1 and len(t2) == 1 else (_ for _ in ()).throw(Untranslatable("zip of pairs"))))
+        if x[0] == "call" and x[2] == "zip" and len(x[3]) == 1:
+            return iter_list(x[1], lambda l1, t1: iter_list(x[3][0], lambda l2, t2: kk("(combine %s %s)" % (l1, l2), [("tup", (t1[0], t2[0]))]) if len(t1) == 1 and len(t2) == 1 else (_ for _ in ()).throw(Untranslatable("zip of pairs"))))
+        if x[0] == "call" and not x[3]:
+            if x[2] == "iter":
+                def ka_(av, ta):
+                    if not (isinstance(ta, tuple) and ta[0] == "arr"): raise Untranslatable(".iter() of a non-array")
+                    return kk(av, [ta[1]])
+                return self.expr(x[1], ka_)
+        if x[0] in ("call", "deref", "id"):
+            def kany(av, ta):
+                if not (isinstance(ta, tuple) and ta[0] == "arr"): raise Untranslatable("for over a value of type %s" % (ta,))
+                return kk(av, [ta[1]])
+            return self.expr(x, kany)
+        raise Untranslatable("for over %r" % (x[0],))
+
+    def is_cycle(self, x):
+        """the iterator under a `.cycle()` (directly or through a let-bound name), else None"""
+        while x[0] == "paren": x = x[1]
+        if x[0] == "call" and x[2] == "cycle" and not x[3]: return x[1]
+        if x[0] == "id" and x[1] in self.env and isinstance(self.env[x[1]][1], tuple) and self.env[x[1]][1][0] == "iter_cycle":
+            return ("id", self.env[x[1]][1][2])
+        return None
+
     def lhs_key(self, e):
         while e[0] in ("deref", "paren"): e = e[1]
         if e[0] == "id": return e[1]
@@ -704,6 +956,59 @@ class Gen:
         if not ss:
             return final(None)
         s, rest = ss[0], ss[1:]
+        # ITER.for_each(|pat| { body });  is  for pat in ITER { body }
+        if (s[0] in ("expr_stmt", "tail") and s[1][0] == "call" and s[1][2] == "for_each" and len(s[1][3]) == 1
+                and s[1][3][0][0] == "closure"):
+            cl = s[1][3][0]
+            s = ("for", cl[1], s[1][1], cl[2])
+        # for (i, x) in ARR.iter_mut().enumerate() { .. *x .. }  is  for i in 0..ARR.len() { .. ARR[i] .. }
+        if (s[0] == "for" and len(s[1]) == 2 and s[2][0] == "call" and s[2][2] == "enumerate" and not s[2][3]
+                and s[2][1][0] == "call" and s[2][1][2] == "iter_mut" and not s[2][1][3]):
+            arr_e = s[2][1][1]; iv, xv = s[1]
+            def subst(n):
+                if isinstance(n, tuple):
+                    if n == ("deref", ("id", xv)): return ("index", arr_e, ("id", iv))
+                    if n == ("id", xv): raise Untranslatable("iter_mut element used other than through *%s" % xv)
+                    return tuple(subst(c) for c in n)
+                if isinstance(n, list): return [subst(c) for c in n]
+                return n
+            s = ("for", [iv], ("range", ("num", 0, "usize"), ("call", arr_e, "len", []), False), subst(s[3]))
+        # for b in &mut *ARR { .. *b .. }  is  for i in 0..ARR.len() { .. ARR[i] .. }
+        if s[0] == "for" and len(s[1]) == 1:
+            base_ = s[2]
+            while base_[0] in ("deref", "paren"): base_ = base_[1]
+            if base_[0] == "id" and base_[1] in self.env and isinstance(self.env[base_[1]][1], tuple) and self.env[base_[1]][1][0] == "arr" and s[2][0] == "deref":
+                xv = s[1][0]; iv = "%s__idx" % xv
+                def subst2(n):
+                    if isinstance(n, tuple):
+                        if n == ("deref", ("id", xv)): return ("index", base_, ("id", iv))
+                        if n == ("id", xv): raise Untranslatable("slice element used other than through *%s" % xv)
+                        return tuple(subst2(c) for c in n)
+                    if isinstance(n, list): return [subst2(c) for c in n]
+                    return n
+                s = ("for", [iv], ("range", ("num", 0, "usize"), ("call", base_, "len", []), False), subst2(s[3]))
+        if s[0] == "let_tuple":
+            names = s[1]
+            def klt(t_, tt):
+                if not (isinstance(tt, tuple) and tt[0] == "tup" and len(tt[1]) == len(names)): raise Untranslatable("tuple pattern against %s" % (tt,))
+                gs = []
+                for n_, ty_ in zip(names, tt[1]):
+                    if n_ == "_": gs.append("_")
+                    else: self.env[n_] = ("v_" + n_, ty_); gs.append("v_" + n_)
+                return "let '(%s) := %s in\n  %s" % (", ".join(gs), t_, self.stmts(rest, final))
+            return self.expr(s[2], klt)
+        if s[0] in ("tail", "expr") and s[1][0] == "iflet":
+            _, name, scrut, th, el = s[1]
+            def kil(sv, st_):
+                if not (isinstance(st_, tuple) and st_[0] == "opt"): raise Untranslatable("if let on a non-Option")
+                saved = dict(self.env)
+                self.env[name] = ("v_" + name, st_[1])
+                a = self.stmts(list(th) + list(rest), final)
+                self.env = dict(saved)
+                b = self.stmts(list(el) + list(rest), final)
+                self.env = saved
+                return "match %s with\n  | Some %s =>\n  %s\n  | None =>\n  %s end" % (sv, "v_" + name, a, b)
+            return self.expr(scrut, kil)
         if s[0] == "for":
             pat, it, body = s[1], s[2], s[3]
             assigned = []
@@ -716,12 +1021,20 @@ class Gen:
                         walkf(x[1][2]); walkf(x[1][3] or [])
                     elif x[0] in ("while",): walkf(x[2])
                     elif x[0] == "for": walkf(x[3])
+                    elif x[0] == "expr_stmt" and x[1][0] == "call" and x[1][2] in self.mut_method_calls:
+                        key = self.lhs_key(x[1][1])
+                        if key in self.env and key not in assigned: assigned.append(key)
+                    elif x[0] == "expr_stmt" and x[1][0] == "call" and x[1][2] == "swap":
+                        key = self.lhs_key(x[1][1])
+                        if key in self.env and key not in assigned: assigned.append(key)
             walkf(body)
             order = [k_ for k_ in self.env if k_ in assigned]
             if not order: raise Untranslatable("for loop that assigns nothing")
             def tup(): return "(" + ", ".join(self.env[k_][0] for k_ in order) + ")" if len(order) > 1 else self.env[order[0]][0]
             # the list iterated over and the element pattern
             def with_list(lst, elem_types):
+                if len(elem_types) == 1 and isinstance(elem_types[0], tuple) and elem_types[0][0] == "tup" and len(pat) == len(elem_types[0][1]) and len(pat) > 1:
+                    elem_types = list(elem_types[0][1])
                 if len(pat) != len(elem_types): raise Untranslatable("for pattern arity")
                 saved = dict(self.env)
                 names = []
@@ -739,30 +1052,7 @@ class Gen:
                 early = ("Some (inl r_early)" if self.loop_depth > 0 else "Some r_early")
                 return ("match for_loop (%s %s =>\n  %s) %s %s with\n  | None => None\n  | Some (inl r_early) => %s\n  | Some (inr %s) =>\n  %s end"
                         % (sb, eb, b, spat, lst, early, spat, after))
-            def iter_list(x, kk):
-                """kk(list term, [element types]) for an iterator expression"""
-                while x[0] == "paren": x = x[1]
-                if x[0] == "range":
-                    def klo(lo, tl):
-                        def khi(hi, th):
-                            t_ = self.unify(tl, th, "range") or "usize"
-                            return kk("(range_list %s %s)" % (lo, ("(%s + 1)" % hi) if x[3] else hi), [t_])
-                        return self.expr(x[2], khi, tl)
-                    return self.expr(x[1], klo)
-                if x[0] == "call" and not x[3]:
-                    if x[2] == "enumerate": return iter_list(x[1], lambda l, ts: kk("(enumerate_list %s)" % l, ["usize"] + ts) if len(ts) == 1 else (_ for _ in ()).throw(Untranslatable("enumerate of pairs")))
-                    if x[2] == "rev": return iter_list(x[1], lambda l, ts: kk("(rev %s)" % l, ts))
-                    if x[2] == "chars":
-                        def ks(sv, ts):
-                            if ts != "str": raise Untranslatable(".chars() of a non-str")
-                            return kk(sv, ["char"])
-                        return self.expr(x[1], ks)
-                    if x[2] == "iter":
-                        def ka_(av, ta):
-                            if not (isinstance(ta, tuple) and ta[0] == "arr"): raise Untranslatable(".iter() of a non-array")
-                            return kk(av, [ta[1]])
-                        return self.expr(x[1], ka_)
-                raise Untranslatable("for over %r" % (x[0],))
+            iter_list = self.iter_list
             return iter_list(it, with_list)
         if s[0] == "while":
             cond, body = s[1], s[2]
@@ -794,6 +1084,21 @@ class Gen:
             binder = "fun '%s" % pat if len(order) > 1 else "fun %s" % pat
             return "match while_loop fuel (%s =>\n  %s) (%s =>\n  %s) %s with None => None | Some %s =>\n  %s end" % (
                 binder, c, binder, b, pat, pat, self.stmts(rest, final))
+        if s[0] == "let" and s[3][0] == "call" and s[3][2] == "cycle" and not s[3][3]:
+            name = s[1]
+            def kcy(l, ts):
+                g = "v_" + name; base = "%s__base" % name
+                self.env[base] = (g, ("iter", tuple(ts)))
+                self.env[name] = (g, ("iter_cycle", tuple(ts), base))
+                return "let %s := %s in\n  %s" % (g, l, self.stmts(rest, final))
+            return self.iter_list(s[3][1], kcy)
+        if s[0] == "let" and (s[3][0] == "range" or (s[3][0] == "call" and s[3][2] in ("zip", "enumerate", "step_by", "skip", "iter", "rev", "chars"))):
+            name = s[1]
+            def kit(l, ts):
+                g = "v_" + name
+                self.env[name] = (g, ("iter", tuple(ts)))
+                return "let %s := %s in\n  %s" % (g, l, self.stmts(rest, final))
+            return self.iter_list(s[3], kit)
         if s[0] == "let":
             name, ty, e = s[1], s[2], s[3]
             want = ty if ty in BITS else None
@@ -845,6 +1150,11 @@ class Gen:
                 return ("let '(%s, %s) := io_write_all %s %s in\n  match %s with\n  | Ok _ => %s\n  | Err %s => %s\n  | Panic => None end"
                         % (iog, r_, b, iog, r_, ok, kd, (self.fn_final or final)(("(inr %s)" % kd, "result"))))
             return self.expr(call[3][0], kw)
+        if s[0] == "expr_stmt" and s[1][0] == "call" and s[1][2] == "fill_bytes" and len(s[1][3]) == 1 and s[1][1] == ("fncall", "thread_rng", []):
+            bkey = self.lhs_key(s[1][3][0])
+            if bkey is None or bkey not in self.env or self.tape is None: raise Untranslatable("fill_bytes target")
+            bg, bty = self.env[bkey]
+            return "let '(%s, %s) := draw (length %s) %s in\n  %s" % (bg, self.tape, bg, self.tape, self.stmts(rest, final))
         if s[0] == "expr_stmt" and s[1][0] == "call" and s[1][2] == "randomize_data" and not s[1][3]:
             key = self.lhs_key(s[1][1])
             if key is None or key not in self.env or self.tape is None: raise Untranslatable("randomize_data target")
@@ -852,6 +1162,33 @@ class Gen:
             n_ = self.field_draws.get(key)
             if n_ is None: raise Untranslatable("size of the random draw for %s" % key)
             return "let '(%s, %s) := draw (N.to_nat %s) %s in\n  %s" % (g, self.tape, n_, self.tape, self.stmts(rest, final))
+        if (s[0] == "expr_stmt" and s[1][0] == "call" and s[1][2] in self.mut_method_calls
+                and self.lhs_key(s[1][1]) in self.env and isinstance(self.env[self.lhs_key(s[1][1])][1], tuple) and self.env[self.lhs_key(s[1][1])][1][0] == "struct"):
+            spec_ = self.mut_method_calls[s[1][2]]
+            fn_, nf = spec_[0], spec_[1]
+            g, ty = self.env[self.lhs_key(s[1][1])]
+            if len(spec_) > 2 and spec_[2] == "slice":        # x.m(&mut data): a translated per-element body folded over the slice
+                a0 = s[1][3][0] if len(s[1][3]) == 1 else None
+                while a0 is not None and a0[0] == "call" and a0[2] in ("as_mut_slice",) and not a0[3]: a0 = a0[1]
+                akey = self.lhs_key(a0) if a0 is not None else None
+                if akey is None or akey not in self.env: raise Untranslatable("slice argument of %s" % s[1][2])
+                ag, _ = self.env[akey]
+                return "match slice_loop %s %s %s with None => None | Some (%s, %s) =>\n  %s end" % (fn_, g, ag, g, ag, self.stmts(rest, final))
+            fs = [self.fresh("f") for _ in range(nf)]
+            def goa(i, acc):
+                if i == len(s[1][3]):
+                    return ("match (let '(%s) := %s in %s %s%s) with None => None | Some (%s, _) =>\n  %s end"
+                            % (", ".join(fs), g, fn_, " ".join(fs), "".join(" " + a for a in acc), g, self.stmts(rest, final)))
+                return self.expr(s[1][3][i], lambda t_, tt: goa(i + 1, acc + [t_]))
+            return goa(0, [])
+        if (s[0] == "expr_stmt" and s[1][0] == "call" and s[1][2] in ("update", "consume") and len(s[1][3]) == 1
+                and self.lhs_key(s[1][1]) in self.env and self.env[self.lhs_key(s[1][1])][1] == {"update": "hmac", "consume": "md5ctx"}[s[1][2]]):
+            g, _ = self.env[self.lhs_key(s[1][1])]
+            def khu(d, td):
+                if not (isinstance(td, tuple) and td[0] == "arr"): raise Untranslatable("%s data" % s[1][2])
+                if s[1][2] == "consume": return "let %s := %s ++ %s in\n  %s" % (g, g, d, self.stmts(rest, final))
+                return "let %s := (fst %s, snd %s ++ %s) in\n  %s" % (g, g, g, d, self.stmts(rest, final))
+            return self.expr(s[1][3][0], khu)
         if s[0] == "expr_stmt" and s[1][0] == "call":
             e = s[1]
             path = None
@@ -921,6 +1258,9 @@ def usize_variables(stmts):
     found = set()
     def ids(e, acc):
         if not isinstance(e, tuple): return
+        if e[0] == "struct" and len(e) == 3 and isinstance(e[2], list):
+            for _, fe in e[2]: ids(fe, acc)
+            return
         if e[0] == "id": acc.add(e[1])
         for x in e[1:]:
             if isinstance(x, tuple): ids(x, acc)
@@ -928,6 +1268,9 @@ def usize_variables(stmts):
                 for y in x: ids(y, acc) if isinstance(y, tuple) else None
     def expr(e):
         if not isinstance(e, tuple): return
+        if e[0] == "struct" and len(e) == 3 and isinstance(e[2], list):
+            for _, fe in e[2]: expr(fe)
+            return
         if e[0] == "index": ids(e[2], found)
         if e[0] == "slice":
             for b in (e[2], e[3]):
@@ -950,8 +1293,27 @@ def usize_variables(stmts):
 
 # -------------------------------------------------------------------------------------- front end
 def strip_comments(s):
-    s = re.sub(r"//[^\n]*", "", s)
-    return re.sub(r"/\*.*?\*/", "", s, flags=re.S)
+    """remove // and /* */ comments, leaving string literals (which may contain // or /*) intact"""
+    out, i, n = [], 0, len(s)
+    while i < n:
+        c = s[i]
+        if c == '"':
+            j = i + 1
+            while j < n and s[j] != '"':
+                j += 2 if s[j] == "\\" else 1
+            out.append(s[i:j + 1]); i = j + 1
+        elif s.startswith("//", i):
+            j = s.find("\n", i)
+            i = n if j < 0 else j
+        elif s.startswith("/*", i):
+            j = s.find("*/", i + 2)
+            i = n if j < 0 else j + 2
+        elif c == "'" and i + 2 < n and (s[i + 2] == "'" or (s[i + 1] == "\\" and i + 3 < n and s[i + 3] == "'")):
+            j = i + (4 if s[i + 1] == "\\" else 3)          # char literal such as '"' or '\\n'
+            out.append(s[i:j]); i = j
+        else:
+            out.append(c); i += 1
+    return "".join(out)
 
 def balanced(s, i):
     depth, j = 0, i
